@@ -792,6 +792,10 @@ func (w *worker) Run(ctx context.Context, req taskRunRequest, reply *taskRunRepl
 	}
 	task.state = TaskRunning
 	task.Unlock()
+	// The task's metrics are those of this run only (as in the local
+	// executor): a task that is run again, because its output was lost or
+	// discarded, must not accumulate the metrics of its earlier runs.
+	task.Scope.Reset(nil)
 	// Gather inputs from the bigmachine cluster, dialing machines
 	// as necessary.
 	var (
